@@ -118,7 +118,9 @@ Plans == <<
   \* 3: index first, data-only writers afterwards, deletes of data only, data-only rewrite
   <<"open", "write", "write", "close", "open", "write", "close", "delete", "open", "write", "close", "reopen", "delete", "gc", "open", "write">>,
   \* 4: explicit commits, several commits per session, reopen between
-  <<"open", "write", "commit", "write", "commit", "close", "reopen", "open", "write", "commit", "close", "delete", "gc", "reopen", "delete", "gc">>
+  <<"open", "write", "commit", "write", "commit", "close", "reopen", "open", "write", "commit", "close", "delete", "gc", "reopen", "delete", "gc">>,
+  \* 5: a closed session, then a long session of many small writes (rollover inside a session), reopen
+  <<"open", "write", "close", "open", "write", "write", "write", "close", "reopen", "open", "write", "write", "close", "reopen", "gc", "gc">>
 >>
 CanKind(kd) ==
   CASE kd = "open" -> ClosedW # {}
